@@ -178,31 +178,34 @@ def run(P, R, tier, cfg):
                 R.violate("b", "store-not-from-candidate", "the stored watermark `%s` does not flow from the per-strategy candidate" % fmt_sym(val), gen, s[0])
 
     # -------------------------------------------------------------- c. lateness test
-    il = P.one(WM + "::is_late")
-    rs = A.returned_syms(il)
-    okc = False
-    if len(rs) == 1:
-        s = strip(rs[0][1])
-        if s[0] == "bin":
-            a, b = strip(s[2]), strip(s[3])
-            if s[1] == "Lt" and a[0] == "param" and a[1] == 2 and A.field_of(b, "timestamp", WM):
-                okc = True
-            if s[1] == "Gt" and b[0] == "param" and b[1] == 2 and A.field_of(a, "timestamp", WM):
-                okc = True
-        desc = fmt_sym(s)
-    else:
-        desc = "%d return values" % len(rs)
-    if okc:
-        R.hold("c", "Watermark::is_late == event_time < self.timestamp", desc, il)
-    else:
-        R.violate("c", "is_late:shape", "Watermark::is_late computes `%s`, not `event_time < self.timestamp` (strict)" % desc, il)
-    gl = P.one(WG + "::is_late")
-    rs = A.returned_syms(gl)
-    s = strip(rs[0][1]) if len(rs) == 1 else ("unknown",)
-    if s[0] == "call" and s[1] == WM + "::is_late" and A.field_of(s[2][0], "current_watermark", WG) and fmt_sym(s[2][1]).endswith("event.metadata.timestamp"):
-        R.hold("c", "WatermarkGenerator::is_late tests the event timestamp against the current watermark", fmt_sym(s), gl)
-    else:
-        R.violate("c", "generator-is_late:shape", "WatermarkGenerator::is_late is `%s`, expected current_watermark.is_late(event.metadata.timestamp)" % fmt_sym(s), gl)
+    def _is_field_chain(sym, names, root_param):
+        """sym == param<root_param>.names[0].names[1]..."""
+        cur = strip(sym)
+        for nm in reversed(names):
+            if cur[0] != "field" or cur[2] != nm:
+                return False
+            cur = strip(cur[1])
+        return cur[0] == "param" and cur[1] == root_param
+
+    for (fname, lhs_chain, lhs_root, rhs_chain, doc) in (
+            (WM + "::is_late", [], 2, ["timestamp"], "event_time < self.timestamp"),
+            (WG + "::is_late", ["metadata", "timestamp"], 2, ["current_watermark", "timestamp"], "event.metadata.timestamp < self.current_watermark.timestamp")):
+        f = P.one(fname)
+        rs = A.returned_syms(f)
+        short_n = fname.split("::")[-2] + "::is_late"
+        if len(rs) != 1:
+            R.undecide("c", fname, "%d return values" % len(rs), f)
+            continue
+        meaning = A.inline_sym(P, rs[0][1])
+        cc = A.canon_cmp(meaning)
+        desc = fmt_sym(meaning)
+        if cc is None:
+            R.undecide("c", fname, "the returned value `%s` is not a single comparison after inlining" % desc, f)
+        elif cc[0] == "<" and _is_field_chain(cc[1], lhs_chain, lhs_root) and _is_field_chain(cc[2], rhs_chain, 1):
+            R.hold("c", "%s means %s (strict)" % (short_n, doc), desc, f)
+        else:
+            R.violate("c", "is_late:meaning:%s" % short_n, "%s means `%s %s %s` after inlining its helpers; the property requires `%s` (late exactly when strictly below the watermark)" % (
+                short_n, fmt_sym(cc[1]), cc[0], fmt_sym(cc[2]), doc), f)
 
     # -------------------------------------------------------------- d. conservation in handle_late_event
     hl = P.one(LH + "::handle_late_event")
